@@ -35,12 +35,17 @@ type SpecOpts struct {
 	MinQ, MaxQ       int
 	MinP, MaxP       int
 	MinBits, MaxBits int
+	// ConjInvOneIn > 0: the conjugate-invariant ring (NthRoot = 4N) is drawn with probability 1/ConjInvOneIn.
+	ConjInvOneIn int
 }
 
 // DrawRLWESpec draws ring degree and unequal prime sizes. Small values are
 // favoured (value 0 of every draw gives the smallest configuration).
 func DrawRLWESpec(ch *core.Chooser, o SpecOpts) RLWESpec {
 	s := RLWESpec{NTT: true, RingType: ring.Standard}
+	if o.ConjInvOneIn > 0 && ch.Chance("conjugate-invariant-ring", 1, o.ConjInvOneIn) {
+		s.RingType = ring.ConjugateInvariant
+	}
 	s.LogN = o.MinLogN + ch.Draw("logN", o.MaxLogN-o.MinLogN+1)
 	nq := o.MinQ + ch.Draw("nQ", o.MaxQ-o.MinQ+1)
 	np := o.MinP + ch.Draw("nP", o.MaxP-o.MinP+1)
